@@ -56,8 +56,12 @@ def write_evidence(prop, tier, level, coverage, wall, violations=0, assumptions=
     os.replace(tmp, os.path.join(EVID, prop + '.json'))
 
 # ---- process helpers ------------------------------------------------------------------------------
+# exit 96 = the harness's own per-case CPU budget ran out, -999 = the driver's wall-clock limit on one replay: a budget that ran out is
+# "inconclusive", never a violation (exit 97, C16's bound on ONE load of a small file, is the property itself and stays a failure)
+BUDGET_RCS = (96, -999)
+
 def is_crash(rc, out):
-    if rc in (0, 1, 2, 3, 4):
+    if rc in (0, 1, 2, 3, 4) or rc in BUDGET_RCS:
         return False
     return True
 
@@ -150,6 +154,10 @@ def confirm_and_report(res, prop, replay_bin, text, msg, crash, env=None):
         f.write(text)
     outs = [run_replay(replay_bin, tmp, prop, env) for _ in range(3)]
     fails = [(rc, o) for rc, o in outs if rc == 1 or is_crash(rc, o)]
+    if any(rc in BUDGET_RCS for rc, _ in outs) and len(fails) < 3:
+        sys.stderr.write('[%s] a replay ran out of its CPU / wall-clock budget (%s); inconclusive\n' % (prop, [rc for rc, _ in outs]))
+        res.cov.setdefault('inconclusive', []).append('budget exhausted while replaying: ' + msg[:200])
+        return False
     knowns = [(rc, o) for rc, o in outs if rc == 4]
     if len(knowns) == 3:
         kid = 'unknown'
@@ -245,7 +253,9 @@ def _run_pbt_round(prop, bins, n_total, size, shards, tier, extra_env, prop_arg,
                 os.remove(stats['fail_case'])
         if rc != 0 and stats and not stats['ok'] and not (stats.get('fail_case')):
             merged['fails'].append(dict(text=None, msg='rapidcheck reported a failure the harness did not record: ' + '\n'.join(out.splitlines()[-25:])[-1200:], crash=True))
-        if rc != 0 and not (stats and not stats['ok']):
+        if rc in BUDGET_RCS:
+            merged.setdefault('budget', []).append('shard %d: %s' % (i, ' '.join(out.splitlines()[-2:])[-200:]))
+        elif rc != 0 and not (stats and not stats['ok']):
             # crashed (sanitizer / assertion / signal): pick up the case being executed
             cur = os.path.join(WORK, 'pbt-%s-%d' % (prop_arg or prop, p.pid), 'current.case')
             text = None
@@ -308,7 +318,9 @@ def run_batch_shards(prop, bins, paths, shards, tier, extra_env=None, prop_arg=N
             if not stats['ok'] and stats.get('fail_case') and os.path.exists(stats['fail_case']):
                 with open(stats['fail_case']) as f:
                     merged['fails'].append(dict(text=f.read(), msg=stats['fail_msg'], crash=False))
-        if rc != 0 and not (stats and not stats['ok']):
+        if rc in BUDGET_RCS:
+            merged.setdefault('budget', []).append('batch: %s' % ' '.join(out.splitlines()[-2:])[-200:])
+        elif rc != 0 and not (stats and not stats['ok']):
             cur = os.path.join(WORK, 'batch-%d' % p.pid, 'current.case')
             text = None
             if os.path.exists(cur):
@@ -326,6 +338,8 @@ def merge_stats(a, b):
             a[key][k] = a[key].get(k, 0) + v
     a['samples'] = (a['samples'] + b['samples'])[:6]
     a['fails'] += b['fails']
+    if b.get('budget'):
+        a['budget'] = a.get('budget', []) + b['budget']
     if not a.get('nt_rule'):
         a['nt_rule'] = b.get('nt_rule', '')
     return a
@@ -413,6 +427,8 @@ def generic_pbt(prop, tier, n_quick, n_thorough, size_quick=100, size_thorough=1
         confirm_and_report(res, prop, bins['replay'], f['text'], f['msg'], f['crash'], env)
     for k, v in m['known'].items():
         res.known[k] = res.known.get(k, 0) + v
+    for b in m.get('budget', []):
+        res.cov.setdefault('inconclusive', []).append('per-case CPU budget exhausted (case abandoned, rest of that shard not run): ' + b)
     res_tags = [k for k in m['tags'] if k.startswith('res:')]
     if res_tags:
         extra_cov = dict(extra_cov or {}); extra_cov['residues_covered'] = len(res_tags)
